@@ -115,6 +115,7 @@ class Shadow:
     """Dense reference value of a tensor."""
 
     def __init__(self, arr, axes, tree, n, sym, isdiag=False):
+        arr = np.asarray(arr)
         self.arr = arr                # ndarray over elementary axes (2-D matrix if isdiag)
         self.axes = list(axes)        # ULeg per elementary axis
         self.tree = list(tree)        # node per (logical) leg
